@@ -237,10 +237,23 @@ func C11(p *core.Program, r *core.Report) {
 	h := p.Func(utilsPkg, "TransferManager", "handle")
 	nUp := 0
 	core.EachInstr(h, func(in ssa.Instruction) {
-		snd, ok := in.(*ssa.Send)
-		if !ok || !pathEndsWith(snd.Chan, "chanBundles") {
+		var at ssa.Instruction
+		switch x := in.(type) {
+		case *ssa.Send:
+			if pathEndsWith(x.Chan, "chanBundles") {
+				at = x
+			}
+		case *ssa.Select:
+			for _, st := range x.States {
+				if st.Dir == types.SendOnly && pathEndsWith(st.Chan, "chanBundles") {
+					at = x
+				}
+			}
+		}
+		if at == nil {
 			return
 		}
+		snd := at
 		nUp++
 		conds := core.DominatingConds(snd.Block())
 		_, fin := callGuard(conds, utilsPkg+".IncomingTransfer.IsFinished", true)
@@ -283,6 +296,48 @@ func C11(p *core.Program, r *core.Report) {
 		}
 		r.Check(notFin || okB, "receiver/"+fname(h)+"/ack-after-acceptance", "a segment's acknowledgement is sent either for a transfer that is not finished yet or after the finished transfer's data was accepted as a bundle (ToBundle()==nil): the sender's success stands for a bundle the receiver took", p.Pos(snd.Pos()), "", "the END segment is acknowledged before / regardless of ToBundle(): the peer's Send returns success for a bundle this node then drops (e.g. lifetime ended in transit by this node's clock); "+condStrings(conds))
 	})
+	// ... and only after the bundle was handed up: an acknowledged bundle still waiting in the manager is lost when the
+	// session ends, although the peer was told it was taken
+	for _, snd := range acks {
+		if _, notFin := callGuard(core.DominatingConds(snd.Block()), utilsPkg+".IncomingTransfer.IsFinished", false); notFin {
+			continue
+		}
+		handed := core.MustPassBefore(snd, func(i ssa.Instruction) bool {
+			switch x := i.(type) {
+			case *ssa.Send:
+				return pathEndsWith(x.Chan, "chanBundles")
+			case *ssa.Select:
+				for _, st := range x.States {
+					if st.Dir == types.SendOnly && pathEndsWith(st.Chan, "chanBundles") {
+						return true
+					}
+				}
+			}
+			return false
+		})
+		if handed {
+			// through a select: the acknowledgement must be on the branch on which the hand-over happened
+			for _, cd := range core.DominatingConds(snd.Block()) {
+				if b, ok := cd.V.(*ssa.BinOp); ok && b.Op == token.EQL {
+					if ex, isEx := b.X.(*ssa.Extract); isEx {
+						if sel, isSel := ex.Tuple.(*ssa.Select); isSel && ex.Index == 0 {
+							hands := false
+							for _, st := range sel.States {
+								if st.Dir == types.SendOnly && pathEndsWith(st.Chan, "chanBundles") {
+									hands = true
+								}
+							}
+							k, _ := core.ConstInt(b.Y)
+							if hands && int(k) < len(sel.States) && !(sel.States[k].Dir == types.SendOnly && pathEndsWith(sel.States[k].Chan, "chanBundles")) && cd.True {
+								handed = false
+							}
+						}
+					}
+				}
+			}
+		}
+		r.Check(handed, "receiver/"+fname(h)+"/ack-after-hand-over", "the END segment is acknowledged only after the bundle was handed up to the client's handler (send on chanBundles completed)", p.Pos(snd.Pos()), "", "the acknowledgement precedes the hand-over: if the session ends in between, the bundle the peer believes delivered is dropped")
+	}
 	r.Min("segment acknowledgements in TransferManager.handle", 1)
 	r.Count("segment acknowledgements in TransferManager.handle", nAck)
 	for _, tb := range core.CallsTo(h, utilsPkg+".IncomingTransfer.ToBundle") {
